@@ -20,7 +20,8 @@ pub(crate) fn type_as_struct(
     Ok(DerivedTS {
         crate_rename: crate_rename.clone(),
         inline: quote!(<#type_as as #crate_rename::TS>::inline()),
-        inline_flattened: None,
+        // flattening a type bound `as` another one is flattening that one
+        inline_flattened: Some(quote!(<#type_as as #crate_rename::TS>::inline_flattened())),
         docs: attr.docs.clone(),
         dependencies,
         export: attr.export,
@@ -40,7 +41,8 @@ pub(crate) fn type_as_enum(attr: &EnumAttr, ts_name: Expr, type_as: &Type) -> Re
     Ok(DerivedTS {
         crate_rename: crate_rename.clone(),
         inline: quote!(<#type_as as #crate_rename::TS>::inline()),
-        inline_flattened: None,
+        // flattening a type bound `as` another one is flattening that one
+        inline_flattened: Some(quote!(<#type_as as #crate_rename::TS>::inline_flattened())),
         docs: attr.docs.clone(),
         dependencies,
         export: attr.export,
